@@ -501,6 +501,7 @@ def replay_decode(item):
     if st != "ok":
         return {"reproduced": False, "observed": f"{line!r}: {st} {why}", "signature": None}
     rec = _Rec()
+    details = []
     if prm["h"] == "array":
         m, n = prm["m"], ARRAY_ELEM[code]
         p = msg.payload
@@ -520,7 +521,13 @@ def replay_decode(item):
                     continue
                 if isinstance(single, list):
                     single = single[0] if len(single) == 1 else single
-                rec.check(p[i] == single, "C05:array-entry-equals-element-decoded-alone", info=f"{p[i]} != {single}")
+                if isinstance(p[i], dict) and isinstance(single, dict) and set(p[i]) != set(single):
+                    short = prm.get("shape", "bcast") + ": keys " + "/".join(sorted(set(p[i]) ^ set(single)))
+                else:
+                    short = prm.get("shape", "bcast") + ": values"
+                if p[i] != single:
+                    details.append(f"{p[i]} != {single}")
+                rec.check(p[i] == single, "C05:array-entry-equals-element-decoded-alone", info=short[:29])
     else:
         import json
 
@@ -533,4 +540,4 @@ def replay_decode(item):
     if not hit:
         return {"reproduced": False, "observed": f"{line!r} -> {msg.payload!r}"[:400], "signature": None}
     lab, info = hit[0]
-    return {"reproduced": True, "observed": f"{line!r} -> {msg.payload!r} :: {lab} {info}"[:600], "signature": f"{(code or line[41:45])} {lab.split(':', 1)[1]}" + (f" [{info}]" if isinstance(info, str) and len(info) < 30 else "")}
+    return {"reproduced": True, "observed": f"{line!r} -> {msg.payload!r} :: {lab} {info} {'; '.join(details[:2])}"[:600], "signature": f"{(code or line[41:45])} {lab.split(':', 1)[1]}" + (f" [{info}]" if isinstance(info, str) and len(info) < 30 else "")}
